@@ -85,7 +85,15 @@ Prefix(a, cut) ==
     [] cut = "hashonly" -> [Absent EXCEPT !.exists = TRUE, !.hash = a.hash, !.hashp = a.hashp, !.hashi = a.hashi]
     [] cut = "nokey"    -> [a EXCEPT !.key = "none"]
 
-ProfVals == {0} \cup {ProfBase + c : c \in Contents}
+\* Entities whose configuration has no validity block take the validity of the profile they reference (C04); an edit of the profile that
+\* changes nothing but its validity changes the effective configuration of THOSE entities and of nobody else.  Profile content values
+\* differ in two visible parts: value mod 2 shows in every certificate that uses the profile (an extension), value div 2 in the validity
+\* the profile hands down.  Both definitions are overridden in the configurations of the layout `inherit`; as they stand (nobody inherits,
+\* profile values = Contents) the model is what it was.
+Inherits == {}
+ProfContents == Contents
+ProfView(e, p) == IF Inherits = {} \/ e \in Inherits THEN p ELSE p % 2
+ProfVals == {0} \cup {ProfBase + c : c \in ProfContents}
 ArtOK(a) ==
   /\ a.exists \in BOOLEAN /\ a.cert \in BOOLEAN /\ a.sigok \in BOOLEAN
   /\ a.hash \in Contents \cup {NoHash}
@@ -97,7 +105,7 @@ ArtOK(a) ==
   /\ (a.hash = NoHash => a.hashp = 0 /\ a.hashi = "")
 
 TypeOK(s) ==
-  /\ s.cfgc \in [Ents -> Contents] /\ s.prof \in Contents /\ s.profp \in BOOLEAN
+  /\ s.cfgc \in [Ents -> Contents] /\ s.prof \in ProfContents /\ s.profp \in BOOLEAN
   /\ s.par \in [Ents -> Ents \cup {""}] /\ \A e \in Ents : s.par[e] # e
   /\ s.present \subseteq Ents /\ s.usesp \subseteq Ents
   /\ s.cfgNewer \in [Ents -> BOOLEAN]
@@ -119,7 +127,7 @@ IssNewer(s, e) == s.par[e] # "" /\ MtPos(s, e) > 0 /\ MtPos(s, s.par[e]) > MtPos
 Without(q, e) == SelectSeq(q, LAMBDA x : x # e)
 
 \* the profile part of e's effective configuration
-ProfOf(s, e) == IF e \in s.usesp THEN ProfBase + s.prof ELSE 0
+ProfOf(s, e) == IF e \in s.usesp THEN ProfBase + ProfView(e, s.prof) ELSE 0
 HashCurrent(s, e) == s.art[e].hash = s.cfgc[e] /\ s.art[e].hashp = ProfOf(s, e) /\ s.art[e].hashi = s.par[e]
 
 FactsOf(s, e) ==
@@ -281,7 +289,7 @@ Apply(s, a) ==
          ELSE {}
     [] a.name = "Expire" ->        \* time passes: the certificate of e (intact chain, issuer key at hand) is now expired.
                                    \* No file is touched: the modification-time relations stay as they are.
-         IF a.e \in s.present /\ s.pc = "idle" /\ s.art[a.e].cert /\ ~s.art[a.e].expired /\ s.art[a.e].sigok /\ s.art[a.e].key = "key"
+         IF a.e \in s.present /\ a.e \notin Inherits /\ s.pc = "idle" /\ s.art[a.e].cert /\ ~s.art[a.e].expired /\ s.art[a.e].sigok /\ s.art[a.e].key = "key"
             /\ s.art[a.e].iss = s.par[a.e]
             /\ (IF s.par[a.e] = "" THEN s.art[a.e].issc = s.art[a.e].certc
                 ELSE s.art[s.par[a.e]].cert /\ s.art[s.par[a.e]].key = "key" /\ s.art[a.e].issc = s.art[s.par[a.e]].certc)
@@ -384,7 +392,7 @@ ResaveAct   == "ResaveArt" \in EnvActs /\ \E e \in Ents : EnvStep([name |-> "Res
 BreakSigAct == "BreakSignature" \in EnvActs /\ \E e \in Ents : EnvStep([name |-> "BreakSignature", e |-> e])
 ReplaceAct  == "Replace" \in EnvActs /\ \E e \in Ents : EnvStep([name |-> "Replace", e |-> e])
 MakeCsrAct  == "MakeCsr" \in EnvActs /\ \E e \in Ents : EnvStep([name |-> "MakeCsr", e |-> e])
-EditProfileAct == "EditProfile" \in EnvActs /\ (UsesProfile # {} \/ st.usesp # {}) /\ \E c \in Contents : EnvStep([name |-> "EditProfile", c |-> c])
+EditProfileAct == "EditProfile" \in EnvActs /\ (UsesProfile # {} \/ st.usesp # {}) /\ \E c \in ProfContents : EnvStep([name |-> "EditProfile", c |-> c])
 RemoveProfileAct == "RemoveProfile" \in EnvActs /\ EnvStep([name |-> "RemoveProfile"])
 AddProfileAct == "AddProfile" \in EnvActs /\ EnvStep([name |-> "AddProfile"])
 SetProfileAct == "SetProfile" \in EnvActs /\ \E e \in Ents : EnvStep([name |-> "SetProfile", e |-> e])
